@@ -515,6 +515,9 @@ namespace photon
         void foreground_lock() {
             // lock
             foreground_locked.store(true, std::memory_order_release);
+            // the load below must not be satisfied before the store above is
+            // visible to the background side (store-load order, Dekker)
+            std::atomic_thread_fence(std::memory_order_seq_cst);
 
             // wait if (unlikely) background locked
             wait_while(background_locked);
